@@ -10,7 +10,8 @@ RULE = ("for n = 1..5 qubits (interleaved in one process): programs preparing ea
         "hardware output lists given as ints and as strings; checks per subcircuit: probabilities >= 0 and sum to 1 (also for gate matrices "
         "scaled by 1 +- eps within the tolerated error), by_str and by_int views list the 2^n outcomes once, in integer order, qubit 0 = least "
         "significant bit = leftmost character; every readout's as_str/as_int obey the same map and have n characters; string and integer "
-        "outputs are interpreted identically; relative frequencies are the counts; non-trivial = n >= 2")
+        "outputs are interpreted identically (also in one list mixing both); relative frequencies are the counts of the recorded readouts, also "
+        "after executing one emulator job repeatedly; non-trivial = n >= 2")
 BOUND = "n <= 5, every basis state, 3 superposition programs per n, eps in {0, 1e-9, 5e-7, 1.5e-6}"
 BUDGET_S = {"quick": 40, "thorough": 300}
 EXHAUSTIVE_IN_THOROUGH = True
@@ -88,6 +89,24 @@ def check(c):
     if basis is not None and not eps:
         if res.readouts[0].as_int != basis or res.readouts[0].as_str != le_str(basis, n):
             return f"basis state {basis}: readout {res.readouts[0].as_int} / {res.readouts[0].as_str!r}"
+    # the same consistency when one emulator job is executed more than once (history: whatever a second execution
+    # does to the recorded readouts it must do to the frequency tables)
+    if n <= 3 and not eps:
+        from jaqalpaq.core.algorithm import expand_macros, fill_in_let, expand_subcircuits
+        from jaqalpaq.emulator.unitary import UnitarySerializedEmulator
+        job = UnitarySerializedEmulator()(expand_macros(fill_in_let(expand_subcircuits(circ))))
+        for attempt in (1, 2, 3):
+            exe = job.execute()
+            for k, sc in enumerate(exe.subcircuits):
+                cnt = numpy.zeros(2 ** n)
+                for r in sc.readouts:
+                    cnt[r.as_int] += 1
+                if not numpy.array_equal(cnt, numpy.asarray(sc.relative_frequency_by_int)):
+                    return (f"after executing the job {attempt} time(s), subcircuit {k} has {len(sc.readouts)} recorded readouts but a "
+                            f"frequency table summing to {float(numpy.asarray(sc.relative_frequency_by_int).sum())}")
+            for r in exe.readouts:
+                if not any(r is x for x in r.subcircuit.readouts):
+                    return f"execution {attempt}: a reported readout is not among the readouts of its subcircuit"
     # hardware outputs: strings and ints interpreted identically
     ints = [(5 * i + (basis or 1)) % (2 ** n) for i in range(4)]
     strs = [le_str(v, n) for v in ints]
@@ -97,6 +116,16 @@ def check(c):
     vb = [(r.as_int, r.as_str, r.subcircuit.index) for r in b.readouts]
     if va != vb or [x[0] for x in va] != ints or [x[1] for x in va] != strs:
         return f"hardware outputs as ints {ints} and as strings {strs} are interpreted differently: {va} vs {vb}"
+    mixed = [v if i % 2 == 0 else s_ for i, (v, s_) in enumerate(zip(ints, strs))]
+    for lst in (mixed, list(reversed(mixed))):
+        try:
+            m = parse_jaqal_output_list(circ, list(lst))
+        except JaqalError:
+            m = None
+        if m is not None:
+            exp = [x if isinstance(x, int) else int(x[::-1], 2) for x in lst]
+            if [r.as_int for r in m.readouts] != exp:
+                return f"an output list mixing ints and strings {lst} is read as {[r.as_int for r in m.readouts]}, expected {exp}"
     for sc_a, sc_b in zip(a.subcircuits, b.subcircuits):
         if not numpy.array_equal(sc_a.relative_frequency_by_int, sc_b.relative_frequency_by_int):
             return "relative frequencies differ between int and str outputs"
